@@ -131,8 +131,8 @@ class versym_get:
              "$so": "self.symboltable.header.sh_offset + n * self.symboltable.header.sh_entsize"}
     ensures = ["result.entry == P('Elf_Versym', self.stream.B, $o)",
                "result.name == secname(self.symboltable.stringtable, P('Elf_Sym', self.symboltable.stream.B, $so).st_name)"]
-    raises = {"ELFParseError": "$o < 2**63 and ($o + 2 > len(self.stream.B) or ($so < 2**63 and"
-                               " $so + SZ('Elf_Sym', self.symboltable.elffile.elfclass) > len(self.symboltable.stream.B)))"}
+    raises = {"ELFParseError": "$o + 2 > len(self.stream.B) or"
+                               " $so + SZ('Elf_Sym', self.symboltable.elffile.elfclass) > len(self.symboltable.stream.B)"}
     may_raise = ["OverflowError"]
 
 
